@@ -107,6 +107,12 @@ def gen_cases(rng, n):
             if name in ("param_field_top", "param_field_mid"):
                 # drive the counter field to saturation first
                 cases[-1]["script"] = [97] * (16 if name == "param_field_top" else 8)
+    # the TokenParser session on unmutated grammars (many start with forced text, which process_prompt() turns into
+    # history tokens): rollbacks into those tokens, reset, fast-forward tokens
+    for _ in range(max(40, n // 8)):
+        kind, name, text = rng.choice(base)
+        cases.append({"gid": "tp:" + name, "kind": kind, "text": text, "limits": None, "ncalls": rng.randint(8, 20),
+                      "seed": rng.randrange(1 << 30), "secs": 30, "tp": 1, "tp_only": 1})
     while len(cases) < n:
         r = rng.random()
         if r < 0.6:
